@@ -160,7 +160,7 @@ func cmdC09Reg(c *ctx) {
 	pick := func() uint32 { return nums[c.rng.Intn(len(nums))] }
 	for i := 0; i < c.n; i++ {
 		r := verifhook.NewTypeRegistry()
-		var reqs, hs []string
+		var reqs, hs, keys []string
 		var prevArr, prevPtr []regPrev
 		k := 2 + c.rng.Intn(14)
 		for j := 0; j < k; j++ {
@@ -270,12 +270,13 @@ func cmdC09Reg(c *ctx) {
 			case ir.PointerType:
 				prevPtr = append(prevPtr, regPrev{name, uint32(t.Base), uint32(t.Space), 0})
 			}
+			keys = append(keys, r.VerifKey(name, inner))
 			h := r.GetOrCreate(name, inner)
 			reqs = append(reqs, fmt.Sprintf("(%s %s)", q(name), rs))
 			hs = append(hs, fmt.Sprint(uint32(h)))
 		}
 		c.line("cases.txt", "(reg "+strings.Join(reqs, " ")+")")
-		c.line("impl.txt", fmt.Sprintf("handles [%s] size %d", strings.Join(hs, ", "), r.Count()))
+		c.line("impl.txt", fmt.Sprintf("handles [%s] size %d keys %s", strings.Join(hs, ", "), r.Count(), strings.Join(keys, " | ")))
 		c.count("request-sequences")
 	}
 }
